@@ -100,6 +100,9 @@ func newC07(tier string) run.Job {
 			}
 		}
 	}
+	// documents in which one container is referenced from several places
+	ws := gen.WideDocs()
+	j.docs = append(j.docs, ws[len(ws)-4:]...)
 	// single objects with 5..12 keys
 	for n := 5; n <= len(c07Keys); n++ {
 		j.docs = append(j.docs, mk(c07Keys[:n], func(i int) interface{} { return float64(i + 1) }))
@@ -128,7 +131,40 @@ func c07Map(n int) map[string]interface{} {
 // larger-then-smaller, much larger.
 var c07Preludes = [][]int{nil, {7}, {1}, {12}, {12, 3}, {3, 12}}
 
+// c07Edit: the pseudo-prelude "evaluate, edit the same map in place keeping its size, evaluate again".
+const c07Edit = 100
+
+// editInPlace removes the smallest key of a top-level object and adds a new largest one.
+func editInPlace(doc interface{}) {
+	m, ok := doc.(map[string]interface{})
+	if !ok || len(m) == 0 {
+		return
+	}
+	ks := gen.SortedKeys(m)
+	v := m[ks[0]]
+	delete(m, ks[0])
+	m["zzz-added"] = v
+}
+
 func (j *c07Job) runOnce(pathText string, doc interface{}, pre int, prefix []int) (x *sched.Exec, res impl.CallResult) {
+	if pre == c07Edit {
+		sched.ResetPools()
+		x, pmsg := sched.RunSequential(sched.Options{MapChoices: true}, prefix, func() {
+			pr := impl.Parse(pathText, &j.env.Cfg)
+			if pr.F == nil {
+				res = impl.CallResult{ErrType: "parse:" + pr.ErrType}
+				return
+			}
+			work := gen.Clone(doc)
+			impl.Call(pr.F, work)
+			editInPlace(work)
+			res = impl.Call(pr.F, work)
+		})
+		if pmsg != "" {
+			res.Panic = pmsg
+		}
+		return x, res
+	}
 	sched.ResetPools()
 	x, pmsg := sched.RunSequential(sched.Options{PoolChoices: pre != 0, MapChoices: true}, prefix, func() {
 		pr := impl.Parse(pathText, &j.env.Cfg)
@@ -161,12 +197,28 @@ func (j *c07Job) RunUnit(i int, c *run.Ctx) {
 		docText := gen.JSON(doc)
 		for _, p := range j.paths {
 			pathText := gen.Render(p, nil).Text
-			out := spec.Eval(p, doc, j.env.Model)
-			want := out.Values()
+			out0 := spec.Eval(p, doc, j.env.Model)
+			dm, isMap := doc.(map[string]interface{})
+			modesList := make([]int, 0, len(c07Preludes)+1)
 			for pre := range c07Preludes {
-				if pre != 0 && di%4 != 0 && len(doc.(map[string]interface{})) < 5 {
+				modesList = append(modesList, pre)
+			}
+			if isMap && len(dm) >= 5 {
+				modesList = append(modesList, c07Edit)
+			}
+			for _, pre := range modesList {
+				if pre != 0 && di%4 != 0 && (!isMap || len(dm) < 5) {
 					continue // pool-recycling preludes on every fourth small document and on every large one
 				}
+				out := out0
+				if pre == c07Edit {
+					// the oracle for the second evaluation is the model on the edited document;
+					// values are compared structurally, so an equal copy serves
+					edited := gen.Clone(doc)
+					editInPlace(edited)
+					out = spec.Eval(p, edited, j.env.Model)
+				}
+				want := out.Values()
 				violated := false
 				orders := map[string]bool{}
 				st := sched.Explore(bound, 50000, func(prefix []int) *sched.Exec {
@@ -191,7 +243,11 @@ func (j *c07Job) RunUnit(i int, c *run.Ctx) {
 								Sig:    "order:" + gen.Shape(p),
 								Detail: fmt.Sprintf("%s on %s with map iteration [%s]: %s", pathText, docText, strings.Join(sites, "; "), detail),
 								Size:   len(docText) + len(pathText)*10,
-								Case:   map[string]interface{}{"path": pathText, "doc": docText, "ast": jsonRaw(p), "pre": pre, "choices": choicesString(trimChoices(x.Choices))},
+								Case: func() map[string]interface{} {
+									cs := caseOf("C07", pathText, docText, modeFloat, "funcs")
+									cs["ast"], cs["pre"], cs["choices"] = jsonRaw(p), pre, choicesString(trimChoices(x.Choices))
+									return cs
+								}(),
 							})
 						}
 					}
@@ -204,6 +260,7 @@ func (j *c07Job) RunUnit(i int, c *run.Ctx) {
 					c.Nontrivial++
 				}
 				c.Outcome(fmt.Sprintf("distinct_result_orders=%d", len(orders)))
+				_ = want
 				if len(want) > 2 && di%40 == 0 && pre == 0 {
 					c.Sample(map[string]interface{}{"path": pathText, "doc": docText, "executions": st.Execs, "result_in_every_execution": show(want)})
 				}
@@ -222,7 +279,7 @@ func init() {
 			"keys: the empty key, \"10\", \"9\", \"B\", \"a\", \"aa\", \"b\", precomposed and decomposed e-acute, \"~\", U+FFFF, U+1F600 (byte order differs from rune, UTF-16 and length order)",
 		},
 		Bounds: map[string]string{
-			"quick":    "16 paths with wildcard, filter, recursive, multi-name and aggregate steps x objects over every 2-, 3- and 4-key subset of 12 keys (values: numbers, objects, nested objects) plus objects of 5..12 keys; every iteration order at ONE map range per execution; every fourth small document and every 5..12-key document also after evaluations on maps of 7, 1, 12, 12-then-3 and 3-then-12 keys (pool recycling) with pool answers enumerated",
+			"quick":    "16 paths with wildcard, filter, recursive, multi-name and aggregate steps x objects over every 2-, 3- and 4-key subset of 12 keys (values: numbers, objects, nested objects) plus objects of 5..12 keys and 4 documents that share containers; every iteration order at ONE map range per execution; every fourth small document and every 5..12-key document also after evaluations on maps of 7, 1, 12, 12-then-3 and 3-then-12 keys (pool recycling) with pool answers enumerated; large objects also evaluated, edited in place (one key removed, one added) and evaluated again",
 			"thorough": "same documents; orders deviating at up to TWO map ranges per execution",
 		},
 		New: newC07,
@@ -235,8 +292,14 @@ func init() {
 			chs, _ := cs["choices"].(string)
 			pre := 0
 			fmt.Sscan(fmt.Sprint(cs["pre"]), &pre)
-			doc := decodeDoc(docText, modeFloat)
-			out := spec.Eval(p, doc, j.env.Model)
+			_ = docText
+			doc := docOfCase(cs)
+			oracleDoc := doc
+			if pre == c07Edit {
+				oracleDoc = gen.Clone(doc)
+				editInPlace(oracleDoc)
+			}
+			out := spec.Eval(p, oracleDoc, j.env.Model)
 			_, res := j.runOnce(path, doc, pre, parseChoices(chs))
 			ok, _, detail := c01Judge(&out, res)
 			return !ok, detail
